@@ -370,7 +370,7 @@ class Twister:
 
     def start(self, suffix):
         cid = self.prefix + suffix
-        if not self.ctx.want(cid):
+        if not self.ctx.want(cid, walk=True):    # cases of one twist share the twist object: a replay re-executes the history
             return None
         return cid
 
